@@ -98,6 +98,16 @@ StableSort(s) == LET idx == SortSeq([i \in 1..Len(s) |-> i], LAMBDA a, b : s[a].
                  IN [i \in 1..Len(s) |-> s[idx[i]]]
 DoSort(k) == /\ c' = [c EXCEPT ![k].items = StableSort(@)]
              /\ Same /\ op' = <<"sort", k>>
+\* sort(key=..., reverse=...): the inherited list.sort with a caller's key (stable; with reverse the order of the keys is
+\* reversed, the order of equal keys is kept).  `best` is not touched - and need not be: it is still the minimum.
+KeyOf(mode, r) == CASE mode = "id" -> r.id [] mode = "negv" -> 0 - r.v [] OTHER -> r.v
+SortByKey(s, mode, rev) ==
+    LET before(a, b) == IF KeyOf(mode, s[a]) = KeyOf(mode, s[b]) THEN a < b
+                        ELSE IF rev THEN KeyOf(mode, s[a]) > KeyOf(mode, s[b]) ELSE KeyOf(mode, s[a]) < KeyOf(mode, s[b])
+        idx == SortSeq([i \in 1..Len(s) |-> i], before)
+    IN [i \in 1..Len(s) |-> s[idx[i]]]
+DoSortKey(k, mode, rev) == /\ c' = [c EXCEPT ![k].items = SortByKey(@, mode, rev)]
+                           /\ Same /\ op' = <<"sortkey", k, mode, rev>>
 DoSortAny(k, t) == /\ t \in SortedPerms(c[k].items) /\ c' = [c EXCEPT ![k].items = t]
                    /\ Same /\ op' = <<"sort", k>>
 
@@ -161,7 +171,10 @@ Next == \E k \in Coll :
           \/ \E v \in Vals, i \in -1..MaxLen : DoInsert(k, i, v) \/ DoSetItem(k, i, v)
           \/ \E i \in -1..MaxLen : DoPop(k, i) \/ DoRemove(k, i) \/ DoDelItem(k, i)
           \/ DoClear(k) \/ DoSort(k)
+          \/ \E mode \in {"id", "negv", "v"}, rev \in BOOLEAN : DoSortKey(k, mode, rev)
           \/ \E o \in Coll, aslist \in BOOLEAN : DoExtend("extend", k, o, aslist) \/ DoExtend("iadd", k, o, aslist)
+          \* the operand handed over as a one-shot iterator (generator / map object): same meaning as a list
+          \/ \E o \in Coll : DoExtend("extend_iter", k, o, TRUE) \/ DoExtend("iadd_iter", k, o, TRUE)
           \/ \E lo, hi \in 0..MaxLen : DoDelSlice(k, lo, hi) \/ (\E o \in Coll : DoSetSlice(k, lo, hi, o))
           \/ \E d \in Coll :
                \/ DoCopy(k, d) \/ DoEveryOther(k, d) \/ DoReversed(k, d) \/ DoApply(k, d)
